@@ -176,14 +176,10 @@ func (c spdxSniff) sniff(data []byte) Format {
 
 	// Removed the strings.Contains to check for the JSON version
 	//  JSON version should be detected above in SniffReader via json.NewDecoder()
-
-	for _, ver := range []string{"2.2", "2.3"} {
-		if strings.Contains(stringValue, fmt.Sprintf("'SPDX-%s'", ver)) ||
-			strings.Contains(stringValue, fmt.Sprintf("\"SPDX-%s\"", ver)) {
-			state.Version = ver
-			return state.Format()
-		}
-	}
+	//
+	// The version is only taken from the SPDXVersion line itself: a quoted
+	// 'SPDX-2.3' somewhere else in the file (a comment, a license text) says
+	// nothing about the version of the document.
 
 	setSniffState(SPDXFORMAT, state)
 	return state.Format()
